@@ -59,6 +59,7 @@ type Op struct {
 	NoRetry    bool // do not retry the lock call after a write conflict
 	CheckExist bool
 	OnlyExist  bool
+	WaitMS     int64 // lock wait time-out in ms (0: wait for ever unless NoWait)
 }
 
 func (o Op) String() string {
@@ -372,6 +373,8 @@ func (c *Client) runTxn(h *History, idx int, p Program, rec *TxnRec) bool {
 				wait := kv.LockAlwaysWait
 				if op.NoWait {
 					wait = kv.LockNoWait
+				} else if op.WaitMS > 0 {
+					wait = op.WaitMS
 				}
 				lctx := kv.NewLockCtx(fts, wait, sched.Now())
 				if op.Kind == "lockrv" {
